@@ -38,7 +38,8 @@ def _noflags(xs):
     """the `changed` mark of an input entry (`A=1*`) is only constrained one way by the statement of C06 (unflagged =>
     same value as in the previous vector), so expectations are compared without it; the rule itself is checked by
     changed_rule() for the C06 scenarios"""
-    return None if xs is None else [re.sub(r"(=[^ \]\*]+)\*", r"\1", x) for x in xs]
+    # an error item is compared as "ERR": which error type reports it is not fixed by the statements
+    return None if xs is None else ["ERR" if x.startswith("ERR") else re.sub(r"(=[^ \]\*]+)\*", r"\1", x) for x in xs]
 
 
 def _vec(call):
